@@ -401,7 +401,11 @@ pub fn mutate_tokens(text: &str, other: &str, rng: &mut Rng) -> String {
             break;
         }
         let (s, e) = *rng.pick(&toks);
-        match rng.below(7) {
+        match rng.below(8) {
+            7 => {
+                // a bare postfix mark after a token (e.g. directly on an application argument)
+                t.insert_str(e, if rng.chance(1, 2) { " ?" } else { " !" });
+            }
             0 => t.replace_range(s..e, ""),
             1 => {
                 let dup = t[s..e].to_owned();
